@@ -22,8 +22,8 @@ import subprocess
 import vlib
 
 SIZES = dict(
-    quick=dict(procs=4, traces=4, ops=8, race_traces=3, race_ops=8),
-    thorough=dict(procs=8, traces=50, ops=9, race_traces=60, race_ops=9),
+    quick=dict(procs=4, traces=4, ops=8, race_traces=1, race_ops=40, hammer='3s'),
+    thorough=dict(procs=8, traces=50, ops=9, race_traces=4, race_ops=300, hammer='10s'),
 )
 
 
@@ -55,8 +55,8 @@ def overlapping(lines):
     return False
 
 
-def record(ctx, binary, seed, traces, ops, tag, race=False, timeout=1500):
-    """run one recorder process; -> (path, returncode, stderr text)"""
+def record(ctx, binary, seed, traces, ops, tag, race=False, extra=()):
+    """start one recorder process; -> (trace path, Popen); stderr goes to <trace path>.err"""
     out = ctx.tmp(f'rec/{tag}.ndjson')
     sdir = ctx.tmp(f'rec/{tag}.scratch/x')
     os.makedirs(os.path.dirname(sdir), exist_ok=True)
@@ -64,7 +64,7 @@ def record(ctx, binary, seed, traces, ops, tag, race=False, timeout=1500):
     if race:
         env['GORACE'] = 'halt_on_error=0 exitcode=0 history_size=3'
     cmd = [binary, 'record', '-seed', str(seed), '-traces', str(traces), '-ops', str(ops), '-out', out,
-           '-scratch', os.path.dirname(sdir)]
+           '-scratch', os.path.dirname(sdir)] + list(extra)
     return out, subprocess.Popen(cmd, env=env, stdout=subprocess.DEVNULL, stderr=open(out + '.err', 'w'))
 
 
@@ -177,8 +177,16 @@ def race_reports(text):
     return out
 
 
-# known data races: pattern -> set of function pairs (names, not line numbers)
-RACE_PATTERNS = {}
+# known data races: pattern -> pairs of racing functions (innermost influxdb frames of the two accesses; names, not line numbers)
+RACE_PATTERNS = {
+    # F16: indirectIndex.DeleteRange appended to and sorted, in place, the slice that TombstoneRange hands to readers
+    'tombstone_slice_aliasing_race': {'tsm1.(*indirectIndex).DeleteRange|tsm1.excludeTombstones%sArray' % t
+                                      for t in ('Float', 'Integer', 'Unsigned', 'String', 'Boolean')}
+    | {'tsm1.(*indirectIndex).DeleteRange|tsm1.excludeTombstones%sValues' % t for t in ('Float', 'Integer', 'Unsigned', 'String', 'Boolean')}
+    | {'tsm1.(*FileStore).locations|tsm1.(*indirectIndex).DeleteRange'},
+    # F17: entry.add read e.vtype without the entry lock while another entry.add wrote it under the lock
+    'cache_entry_vtype_race': {'tsm1.(*entry).add'},
+}
 
 
 def run(ctx):
@@ -206,7 +214,10 @@ def run(ctx):
         procs.append((i, ctx.seed * 1000 + i) + record(ctx, binary, ctx.seed * 1000 + i, sz['traces'], sz['ops'], f'n{i}'))
     # the race build is started while they run (cold: minutes; warm: seconds)
     race_bin = ctx.go_build('engine', race=True)
-    rp = record(ctx, race_bin, ctx.seed * 1000 + 777, sz['race_traces'], sz['race_ops'], 'race', race=True)
+    # race monitor: the same operation mix without pauses (too dense to be validated as a trace), preceded by 4 goroutines on one
+    # tsm1.Cache (where callers meet without the engine lock)
+    stress = ('-stress', '-cache-hammer', sz['hammer'])
+    rp = record(ctx, race_bin, ctx.seed * 1000 + 777, sz['race_traces'], sz['race_ops'], 'race', race=True, extra=stress)
     files = []
     for i, seed, out, p in procs + [(-1, ctx.seed * 1000 + 777) + rp]:
         rc = finish_proc(p, 2400)
@@ -215,7 +226,7 @@ def run(ctx):
         if rc == 3 or rc is None:
             # stall: only a reproduced one counts
             out2, p2 = record(ctx, race_bin if i < 0 else binary, seed, sz['race_traces'] if i < 0 else sz['traces'],
-                              sz['race_ops'] if i < 0 else sz['ops'], tag + '-again', race=i < 0)
+                              sz['race_ops'] if i < 0 else sz['ops'], tag + '-again', race=i < 0, extra=stress if i < 0 else ())
             rc2 = finish_proc(p2, 2400)
             if rc2 == 3 or rc2 is None:
                 dump = open(out2 + '.err').read()
@@ -232,8 +243,10 @@ def run(ctx):
                                     'result': {'step': -1, 'patterns': [], 'msg': f'{kind} in the concurrent workload (seed {seed}, exit {rc}): '
                                                + err[-6000:]}})
             continue
-        files.append((tag, out))
-        if i < 0:
+        if i >= 0:
+            files.append((tag, out))
+        else:
+            stats['race_monitor_operations'] = sum(1 for ln in open(out) if '"ev":"call"' in ln)
             reps = race_reports(err)
             stats['race_reports'] = len(reps)
             seen = {}
